@@ -34,3 +34,9 @@ func SkipRight(f *os.File, w io.Writer, keep, drop int64) error {
 	_, err := io.Copy(w, in)
 	return err
 }
+
+// CopyPart is the positive control of R13g: a bounded copy that does not notice a short source.
+func CopyPart(w io.Writer, f *os.File, n int64) error {
+	_, err := io.Copy(w, io.LimitReader(f, n))
+	return err
+}
